@@ -1043,6 +1043,18 @@ class CodeGenerator(NodeVisitor):
 
     def visit_Include(self, node: nodes.Include, frame: Frame) -> None:
         """Handles includes."""
+        level = 0
+
+        # like other output, an include outside of blocks is not rendered
+        # by a child template
+        if frame.require_output_check:
+            if self.has_known_extends:
+                return
+
+            self.writeline("if parent_template is None:")
+            self.indent()
+            level += 1
+
         if node.ignore_missing:
             self.writeline("try:")
             self.indent()
@@ -1103,6 +1115,8 @@ class CodeGenerator(NodeVisitor):
 
         if node.ignore_missing:
             self.outdent()
+
+        self.outdent(level)
 
     def _import_common(
         self, node: nodes.Import | nodes.FromImport, frame: Frame
